@@ -119,8 +119,18 @@ func c01Body(b *mon.B, idx int, v *rfc8907.Value, mustAccept bool) {
 	}
 }
 
+// c01Held is the previous packet encoding, kept across the next MarshalBinary call:
+// bytes already handed to a caller must not change when another packet is encoded.
+var c01Held struct{ got, ref []byte }
+
 func c01Packet(b *mon.B, idx int, h rfc8907.Header, body []byte) {
 	b.Eval(1)
+	defer func() {
+		if c01Held.got != nil && !bytes.Equal(c01Held.got, c01Held.ref) {
+			b.Violate(idx, "C01/encoded-packet-changed-after-a-later-encode", fmt.Sprintf("the %d bytes returned by an earlier Packet.MarshalBinary changed when another packet was encoded (first difference at offset %d)", len(c01Held.ref), firstDiff(c01Held.got, c01Held.ref)), nil)
+			c01Held.got = nil
+		}
+	}()
 	h.Length = uint32(len(body))
 	ref := append(h.Encode(), body...)
 	b.Class("packet/type%d/len%s", h.Type, lenBucket(len(body)))
@@ -137,6 +147,13 @@ func c01Packet(b *mon.B, idx int, h rfc8907.Header, body []byte) {
 	} else if !bytes.Equal(got, ref) {
 		b.Violate(idx, "C01/encode-mismatch/packet", fmt.Sprintf("packet bytes differ from header||body at offset %d", firstDiff(got, ref)),
 			map[string]interface{}{"lib": hexs(got), "ref": hexs(ref)})
+	} else {
+		// hold on to the slice the library returned (not a copy) until the next encode
+		prevGot, prevRef := c01Held.got, c01Held.ref
+		c01Held.got, c01Held.ref = got, append([]byte{}, ref...)
+		if prevGot != nil && !bytes.Equal(prevGot, prevRef) {
+			b.Violate(idx, "C01/encoded-packet-changed-after-a-later-encode", fmt.Sprintf("the %d bytes returned by an earlier Packet.MarshalBinary changed when this packet (%d bytes) was encoded", len(prevRef), len(ref)), nil)
+		}
 	}
 	var d tq.Packet
 	if err := tq.Unmarshal(append([]byte{}, ref...), &d); err != nil {
